@@ -617,7 +617,7 @@ def gen_vi(ctx):
     return [(cs + [NL], opt) for cs, opt in cases]
 
 
-def vi_stream(ctx, cl, probe, vi, cases, pairs=None):
+def vi_stream(ctx, cl, probe, vi, cases, pairs=None, vi_asan=None):
     res = ctx.res
     try:
         from props import c18
@@ -655,6 +655,18 @@ def vi_stream(ctx, cl, probe, vi, cases, pairs=None):
                        })
     for (line, opt) in cases[:400:97]:
         res.sample({'request': vi_req(line, opt)})
+    # the sanitized build of the editor on a part of the same lines: memory errors / undefined behaviour on the way
+    if vi_asan:
+        sub = list(zip(cases, seeds))[::3 if ctx.quick else 1]
+        aouts = vlib.pmap(lambda a: vi_one(cl, sp, probe, vi_asan, a[0][0], a[0][1], a[1]), sub)
+        nbad = 0
+        for ((line, opt), _seed), r in zip(sub, aouts):
+            if r is None or r[0] is None:
+                continue
+            nbad += 1
+            if nbad <= 2:
+                res.violation({'what': 'sanitized build of the editor: ' + r[0], 'input': [vi_req(line, opt)], 'keys': r[3], 'expected': r[1], 'observed': r[2]})
+        res.count('vi -v lines repeated with the ASan/UBSan build', len(sub))
     # two different lines: the column survives j
     pairs = pairs or []
     pseeds = [int(hashlib.sha256(vi2_req(a, b, opt).encode()).hexdigest()[:12], 16) for a, b, opt in pairs]
@@ -701,7 +713,7 @@ def run(ctx):
         tm[name] = round(time.time() - t0, 1)
         t0 = time.time()
     cl = rc.Classes(rc.tables())
-    probe, probe_asan, model, vi = rc.build(model=lambda: ctx.model('ren'), vi=True)
+    probe, probe_asan, model, vi, vi_asan = rc.build(model=lambda: ctx.model('ren'), vi='asan')
     res.rule = ('one evaluation = one line x option setting through ren_position, ren_pos, ren_off, ren_cursor, ren_next (both ways), ren_noeol, '
                 'ren_wid, pos_next, pos_prev at every offset and every column (both ends for lines wider than 80), or one code point of the '
                 'exhaustive width-class sweep, or one cursor motion (N|, counted h / l, after 0 / $) of vi -v on a line; non-trivial = the line contains a tab, a wide, zero-width, placeholder, control or right-to-left '
@@ -816,7 +828,7 @@ def run(ctx):
     for (cs, opt), r, a in list(zip(cases, reqs, obs))[:2000:331]:
         res.sample({'request': r, 'answer': (a or '')[:300]})
     lap('sanitized probe, oracle')
-    vi_stream(ctx, cl, probe, vi, vcases, vpairs)
+    vi_stream(ctx, cl, probe, vi, vcases, vpairs, vi_asan)
     lap('vi -v stream')
     if not ctx.replay:
         sweep(ctx, cl, probe, model)
